@@ -1,11 +1,13 @@
 import NanoVerif.Model.DriverMain
 import NanoVerif.Driver.EarlyStopping
+import NanoVerif.Driver.Boost
 /-! line-protocol driver of C11 (must not import Mathlib, directly or indirectly) -/
 open NanoVerif
 
 def handle (fam : String) (rest : List String) : Option String :=
   match fam with
   | "es" => Driver.EarlyStopping.handle rest
+  | "gbloop" => Driver.Boost.handle rest
   | _ => none
 
 def main : IO Unit := DriverMain.run handle
